@@ -218,6 +218,11 @@ func Origins(v ssa.Value, opt FlowOpts) []Origin {
 			}
 			switch a := x.X.(type) {
 			case *ssa.Alloc:
+				// flow-sensitive when the reaching store is unambiguous
+				if sv := reachingStore(x, a); sv != nil {
+					rec(sv, path, d+1)
+					return
+				}
 				// union of stores into the local
 				n := 0
 				for _, r := range *a.Referrers() {
